@@ -1030,6 +1030,10 @@ def main():
              % ("18x18 exponents" if thorough else "12 exponent combinations", 9 if thorough else 5,
                 "" if SKIP_BLANKS else "; a blank at every inner position of every single-factor string and between every "
                                        "ordered pair of symbols"))
+    # ---- history workloads: objects used, modified through their setters / re-used, used again (vf/history.py) ----
+    from vf.sandbox import run_extra as _run_extra
+    from vf.common import seed as _seed, tier as _tier
+    _run_extra(run, "vf.history:h_units_inplace", [{"seed": _seed(), "idx": _i} for _i in range(320 if _tier() == "thorough" else 32)], cpu_budget=120, kind_prefix="history: ")
     return run.finish()
 
 
